@@ -96,5 +96,17 @@ META["C13"] = {"engine": "W-wire", "design_ref": "DESIGN.md §4 Engine W, §5 C1
                               "arguments, then byte-level mutation and arbitrary splits into reads; each case on a fresh in-process leader in a child process so that deaths of background goroutines and Go fatal errors "
                               "are observed and keyed. Sampling, not proof."),
                "level_note": "Trusted: the scripted fake net.Conn instead of TCP; domain filter for administrative commands that legitimately stop or reconfigure the server (counted); waits are ended with the server's own forced time-out; 20 genuine crashes were found and repaired by fix: commits (listed as fixed in known_findings.json)."}
+ENGINES["D-disconnect"] = {"path": "harness/server/c18_engine_test.go, c18_test.go", "props": ["C18"], "kind": "stateful PBT (rapid): generated connection life cycles (INIT, wills, requests, ways of ending, clock ticks) through the real Server.handle over in-memory connections, virtual clock; metamorphic reference run for wills, census and routing oracles"}
+META["C18"] = {"engine": "D-disconnect", "design_ref": "DESIGN.md §4 Engine D, §5 C18",
+               "technique": "stateful property-based testing (rapid) with a metamorphic reference run (wills replaced by the same commands sent once after the close), census after drain and reply-routing validity over every received frame",
+               "level_text": ("Exploration: tens of thousands (quick) to hundreds of thousands (thorough) of generated connection life cycles per run on a fresh leader each; the real handler goroutines are serialised by the harness "
+                              "(it acts only when every handler is parked), so cases replay exactly; true write/close races on sockets are not explored."),
+               "level_note": "Trusted: in-memory net.Conn instead of TCP, in-package detection of parked handlers, the reference semantics of a will (same command sent by a live connection when the dying handler has finished), strict reading of 'delivered to a reconnected client'. Text-protocol wills are a listed known finding (never executed)."}
+ENGINES["K-ack"] = {"path": "harness/server/c11_engine_test.go, c11_single_test.go, c11_cluster_test.go", "props": ["C11"], "kind": "stateful PBT (rapid): single leader with harness-parked log writers and injected write errors; leader + 1..2 in-process followers behind a proxy that stalls, negates or drops ack frames; reply-driven ledger vs. in-package snapshot, log-file look-up in the reply callback"}
+META["C11"] = {"engine": "K-ack", "design_ref": "DESIGN.md §4 Engines P/N/B as adapted, §5 C11",
+               "technique": "stateful property-based testing (rapid) with fault injection (write errors, delayed / negative / lost follower acknowledgements, demotion, ack-wait time-outs) against a reply-driven reference ledger and file / proxy evidence at the moment of every SUCCED",
+               "level_text": ("Exploration: tens of thousands of generated histories per run on a fresh leader (and 1-2 followers) each; the harness owns the clock and parks the log writers, so the single-node layer is "
+                              "deterministic and replays exactly; the cluster layer owns the ack frames but not the goroutine schedule."),
+               "level_note": "Trusted: write errors modelled by closing the file under the writer; the proxy's frame parser; lower-bound quorum computation; sequential by construction (no ack-handler vs. unlock races). Four genuine defects are listed as known findings, three were repaired."}
 _NOT_BUILT = "check not built yet in this session (planned in DESIGN.md); not claimed rather than faked"
 NOT_APPLICABLE = {f"C{i:02d}": _NOT_BUILT for i in range(1, 21)}
